@@ -1,17 +1,25 @@
 #!/usr/bin/env python3
 """C01 - rendering any template text with any value is memory-safe and terminates.
 
-(I) spec/QTemplateParseImpl.tla: the push-down discipline of the tag scanner (TemplateCore::parse) over token classes; TLC decides
-    for every token sequence up to length 5/6 that a record is only reinterpreted as the kind it was created as, that a loop's
-    level stays within the loop-item array grown by renderLoop, that every tag has its end offset set and that unfinished
-    tags are dropped; every sequence is exported (E3) and concretized into several template texts.
-(B) those texts, plus every truncation / single-unit deletion / duplication / delimiter swap of well-formed templates generated
-    for C02, plus templates with quote and bracket characters inside attribute values, are rendered from exact-size
-    unterminated buffers in 3 character widths into a non-empty stream under ASan+UBSan with a per-case alarm, with value trees
-    of every kind.  Oracle: normal return, no sanitizer report, no signal, no hang; tag-free text renders to itself (TLC).
+(I) spec/QTemplateParseImpl.tla: the push-down discipline of the tag scanner (TemplateCore::parse): the scanner's locals (tag
+    tree, container stack, current container, innermost loop, is_child) and one action per case of its switch.  TLC decides for
+    every token sequence up to length 6 (quick) / 8 (thorough) that no null tag is dereferenced, that storage and the stack only
+    refer to live containers (an <else> relocates the case containers), that loop_tag and every Parent reachable from it are
+    live loop records, that after the clean-up every record has its end offset, that a record only copies the level of a loop
+    that encloses it and that a loop's level is its depth.  The scanner's two earlier behaviours (variants of the same spec)
+    must be rejected by the same invariants.
+(B1) code -> spec (E4, hook H2): the real scanner reports its complete projected state before every dispatched token; TLC
+    (TraceQTemplateParse) accepts a step only if the model has a transition for that token from the logged state to the state
+    logged next, and evaluates the invariants in every recorded state.
+(B2) the generated texts - token-class sequences in several spellings, every truncation / deletion / duplication / delimiter
+    swap of well-formed templates generated for C02, quote and bracket characters inside attribute values, nests 300 and 600
+    deep (beyond the 8-bit level) - are rendered from exact-size unterminated buffers in 4 character widths into a non-empty
+    stream under ASan+UBSan with a per-case alarm, in the SSE2, scalar, AVX2 and auto-escape-off builds, with value trees of
+    every kind.  Oracle: normal return, no sanitizer report, no signal, no hang; tag-free text renders to itself (TLC).
 """
-import os, sys, json, random, itertools
+import os, sys, json, random, itertools, collections, concurrent.futures
 sys.path.insert(0, os.path.join(os.path.dirname(os.path.abspath(__file__)), "..", "lib"))
+import re
 import vf, walk, tmplgen
 
 SPELL = {
@@ -31,9 +39,113 @@ SPELL = {
 TOKENS = list(SPELL)
 
 
+def model(c):
+    r = c.tlc("QTemplateParseImpl", "QTemplateParseImpl_8" if c.thorough else "QTemplateParseImpl_6", timeout=3400, xmx="24g")
+    c.expect_holds(r, "QTemplateParseImpl: NoBad PsLive ChainLive AllClosedAtEnd LoopsEnclose LevelIsDepth")
+    # the invariants are not vacuous: the scanner's earlier behaviours are rejected
+    for cfg, inv in (("QTemplateParseImpl_old_else", "ChainLive"), ("QTemplateParseImpl_old_loopend", "NoBad")):
+        r = c.tlc("QTemplateParseImpl", cfg, timeout=900, workers=4)
+        if inv not in r.violated:
+            raise vf.MachineryError("%s: the earlier scanner behaviour is not rejected by %s" % (cfg, inv))
+
+
+def validate_traces(c, xasan, inp, cases):
+    """code -> spec: hook H2 events of every case with at most `cap` events, validated by TLC in parallel chunks."""
+    p = os.path.join(c.out, "parse.ndjson")
+    crashes = walk.run_cases(c, xasan, "parse", inp, p, "template-any-text", max_restarts=60)
+    per = collections.OrderedDict()
+    with open(p) as f:
+        for ln in f:
+            per.setdefault(int(ln[5:ln.index(",")]), []).append(ln)
+    os.remove(p)
+    cap = 60 if c.thorough else 24
+    sel = [k for k in per if len(per[k]) <= cap]
+    nchunks = 16
+    chunks = [[] for _ in range(nchunks)]
+    for i, k in enumerate(sel):
+        chunks[i % nchunks].append(k)
+    toks = collections.Counter()
+
+    def job(i):
+        tp = os.path.join(c.out, "parse_%d.ndjson" % i)
+        n = 0
+        with open(tp, "w") as f:
+            for k in chunks[i]:
+                f.writelines(per[k])
+                n += len(per[k])
+        if n == 0:
+            return i, None, 0
+        r = c.tlc("TraceQTemplateParse", env={"TRACE": tp}, workers=1, timeout=3000, xmx="3g", xss="256m", name="TraceQTemplateParse_%d" % i, quiet=True)
+        os.remove(tp)
+        return i, r, n
+    total = 0
+    with concurrent.futures.ThreadPoolExecutor(max_workers=nchunks) as ex:
+        for i, r, n in ex.map(job, range(nchunks)):
+            if r is None:
+                continue
+            total += n
+            if r.violated:
+                st = r.last_state or {}
+                c.violation("template-scanner invariant %s violated in a recorded state (chunk %d)" % (",".join(r.violated), i), {"kind": "trace-invariant", "violated": r.violated, "last_state": st})
+            ended = False
+            for ln in r.prints:
+                v = vf.parse_tla_value(ln)
+                if v[0] == "TRACE-END":
+                    ended = v[1] == n
+                elif v[0] == "MISMATCH":
+                    text, vj, fam = cases[v[1]]
+                    c.violation("template-scanner step not allowed by QTemplateParseImpl: %s (event %d) template=%r" % (v[3] if len(v) > 3 else "final state", v[2], text[:200]),
+                                {"kind": "trace-mismatch", "case": v[1], "event": v[2], "template": text, "value": vj, "events": [json.loads(x) for x in per[v[1]]]})
+                elif v[0] == "TRUNCATED":
+                    pass   # the crash that cut the case short was reported by run_cases
+            if not ended and not r.violated:
+                raise vf.MachineryError("trace chunk %d was not consumed to its end" % i)
+    for k in sel:
+        for ln in per[k]:
+            toks[int(ln[ln.index('"tok":') + 6:ln.index(',"tree"')])] += 1
+    c.count(n_eval=len(sel), validated=total)
+    c.stage("trace-validation", cases=len(sel), skipped_long=len(per) - len(sel), events=total, crashes=crashes,
+            tokens={str(k): v for k, v in sorted(toks.items())})
+
+
+def deep_recursion(c, asan):
+    """Known finding: rendering (and destroying) a tag tree recurses once per nesting level."""
+    inp = os.path.join(c.out, "deepstack.txt")
+    with open(inp, "w") as f:
+        for text in ('<if case="1">' * 40000 + "x" + "</if>" * 40000, '<loop set="v" value="w">' * 40000 + "x" + "</loop>" * 40000):
+            f.write(",".join(str(ord(ch)) for ch in text) + "\t" + ",".join(str(ord(ch)) for ch in '{"v":[[1]]}') + "\t" + '{"fam":"deepstack","ast":null,"doc":{"t":"Z"}}' + "\n")
+    out = os.path.join(c.out, "deepstack.ndjson")
+    start = 0
+    n = 0
+    for attempt in range(3):
+        rc, o, err = c.run(["bash", "-c", 'ulimit -s 8192; exec "$0" render "$1" "$2" "$3"', asan, inp, out, str(start)], timeout=600)
+        lines = o.strip().splitlines()
+        if lines and lines[-1] == "DONE":
+            break
+        m = None
+        for ln in reversed(lines):
+            m = re.match(r"(CRASH|HANG) (-?\d+) (-?\d+) ?(.*)", ln)
+            if m:
+                break
+        if not m:
+            c.harness_ok("template-deep-nesting-40000", rc, o, err, {})
+            break
+        san = re.search(r"AddressSanitizer: ([a-z-]+)", err or "")
+        c.violation("template-deep-nesting-40000 %s: %s | %s" % (m.group(1), san.group(1) if san else "signal " + m.group(3), m.group(4)[:60]),
+                    {"kind": "crash", "case": int(m.group(2)), "stderr": (err or "")[-2000:]})
+        n += 1
+        start = int(m.group(2)) + 1
+    c.count(n_eval=2, validated=2)
+    c.stage("deep-recursion", cases=2, crashes=n)
+    for q in (inp, out):
+        if os.path.exists(q):
+            os.remove(q)
+
+
 def main():
     c = vf.Check("C01")
-    (asan,) = c.build("h_template.asan")
+    asan, xasan, scalar, avx2, noesc = c.build("h_template.asan", "h_template.xasan", "h_template.asan_scalar", "h_template.asan_avx2", "h_template.asan_noesc")
+    model(c)
     rnd = random.Random(c.seed)
     g = tmplgen.Gen(c.seed)
     doc = g.root()
@@ -81,6 +193,15 @@ def main():
                     '<loop set="obj[%s]" value="lv">{var:lv}</loop>', '<if case="{var:obj[%s]} == 1">y<else>n</if>', '{svar:phrase, {var:obj[%s]}, {math:{var:obj[%s]}}}',
                     '{math:{var:obj[%s]} + {var:obj[%s]}}']:
             add(tpl.replace("%s", k), "quotes")
+    # (d) nests deeper than the 8-bit level and than the initial stacks
+    for depth in (300, 600):
+        for opn, cls, vj in (('<loop set="nest" value="lv">', "</loop>", '{"nest":[[[[1]]]],"a":1,"phrase":"{0}","lv":[2]}'), ('<if case="1">', "</if>", '{"a":1,"lv":[2]}'),
+                             ('<if case="0">a<else>', "</if>", '{"a":1,"lv":[2]}'), ("{svar:phrase, ", "}", '{"a":1,"phrase":"{0}","lv":[2]}'),
+                             ('{if case="1" true="', '" false="F"}', '{"a":1,"lv":[2]}'),
+                             ('<loop value="lv"><if case="1">', "</if></loop>", '{"lv":[2]}')):      # (a loop without set= walks the root: one member, or the work is members^depth)
+            cases.append((opn * depth + "{var:lv}{var:a}" + cls * depth, vj, "deep"))
+            cases.append((opn * depth + "{var:lv}", vj, "deep"))
+            cases.append((opn * depth + "}<else {var:lv}</loop></if>" + cls * (depth // 2), vj, "deep"))
     inp = os.path.join(c.out, "templates.txt")
     with open(inp, "w") as f:
         for text, vj, fam in cases:
@@ -89,6 +210,28 @@ def main():
             f.write(",".join(str(ord(ch)) for ch in text) + "\t" + ",".join(str(ord(ch)) for ch in vj) + "\t" + json.dumps(meta, separators=(",", ":")) + "\n")
     p = os.path.join(c.out, "render.ndjson")
     crashes = walk.run_cases(c, asan, "render", inp, p, "template-any-text", max_restarts=60)
+    # the other builds: scalar, AVX2, auto-escape off (every case in the thorough tier, every third one otherwise)
+    for name, binary in (("scalar", scalar), ("avx2", avx2), ("noesc", noesc)):
+        sub = os.path.join(c.out, "templates_%s.txt" % name)
+        with open(inp) as f, open(sub, "w") as g:
+            k = 0
+            for i, ln in enumerate(f):
+                if c.thorough or i % 3 == 0:
+                    g.write(ln)
+                    k += 1
+        po = os.path.join(c.out, "render_%s.ndjson" % name)
+        cr = walk.run_cases(c, binary, "render", sub, po, "template-any-text[%s]" % name, max_restarts=60)
+        n_ok = 0
+        for e in vf.read_ndjson(po) if os.path.exists(po) else []:
+            n_ok += 1
+            if not (e["prefix"] == 1 and e["vsame"] == 1):
+                c.violation("template-any-text[%s] flags prefix=%d vsame=%d template=%r" % (name, e["prefix"], e["vsame"], "".join(chr(u) for u in e["t"])[:200]), {"kind": "flags", "build": name, "event": e})
+        c.count(n_eval=n_ok, validated=n_ok)
+        c.stage("harness-" + name, cases=k, crashes=cr)
+        os.remove(po)
+        os.remove(sub)
+    validate_traces(c, xasan, inp, cases)
+    deep_recursion(c, asan)
     fams = {}
     for _, _, fam in cases:
         fams[fam] = fams.get(fam, 0) + 1
